@@ -91,7 +91,20 @@ def job(spec):
                     continue
                 oc, b = _call(lambda: fil.read_block(s, n))
                 ev.append({"a": "block", "start": s, "n": n, "outcome": oc, "shape": [int(x) for x in np.asarray(b.data).shape] if b is not None else [],
-                           "valsq": _q(np.asarray(b.data).T) if b is not None else []})
+                           "valsq": _q(np.asarray(b.data).T) if b is not None else [],
+                           "tstart_off_us": int(round((num(b.header.tstart) - num(h.tstart)) * 86400e6)) if b is not None else 0})
+                if (s + n) % 4 == 1 and C >= 2:        # the same request restricted to a sub-band given by its first-channel frequency
+                    c0 = (s + 2 * n) % C
+                    mm = 1 + (s + n) % (C - c0)
+                    oc2, b2 = _call(lambda: fil.read_block(s, n, fch1=num(h.fch1) + c0 * num(h.foff), nchans=mm))
+                    ev.append({"a": "subblock", "start": s, "n": n, "c0": c0, "m": mm, "outcome": oc2,
+                               "shape": [int(x) for x in np.asarray(b2.data).shape] if b2 is not None else [],
+                               "valsq": _q(np.asarray(b2.data).T) if b2 is not None else []})
+                    if b2 is not None:
+                        try:
+                            np.asarray(b2.data)[...] = -777.0
+                        except (ValueError, TypeError):
+                            pass
                 if b is not None:         # a block belongs to its caller: scribbling on it must not show in any later read
                     try:
                         np.asarray(b.data)[...] = -777.0
@@ -171,22 +184,22 @@ def run(v) -> None:
             if e["a"] == "block" and (e["start"] % t["cfg"]["nsblk"] or (e["start"] + e["n"]) % t["cfg"]["nsblk"]):
                 v.nontrivial.add((t["cfg"]["seed"], e["start"], e["n"]))
     keys = ("a", "outcome", "nsamples", "valsq", "start", "n", "shape", "op", "ch", "chans", "plain", "nchans", "nbits", "fch1_milli",
-            "foff_milli", "tsamp_micro", "tstart_off_us")
+            "foff_milli", "tsamp_micro", "tstart_off_us", "c0", "m")
     dflt = {"nsamples": 0, "valsq": [], "start": 0, "n": 1, "shape": [], "op": "", "ch": 0, "chans": [], "plain": True, "nchans": 0, "nbits": 0,
-            "fch1_milli": 0, "foff_milli": 0, "tsamp_micro": 0, "tstart_off_us": 0}
+            "fch1_milli": 0, "foff_milli": 0, "tsamp_micro": 0, "tstart_off_us": 0, "c0": 0, "m": 1}
     traces = [{"hdr": t["hdr"], "ev": [{k: e.get(k, dflt.get(k)) for k in keys} for e in t["ev"]], "full": t} for t in ok]
     for tr, pos in tracecheck.validate("Trace_PFits", traces, verdict=v, label="PSRFITS reads", chunk=4, timeout=3000):
         t = tr["full"]
         e = t["ev"][abs(pos) - 1]
         cfg = {k: t["cfg"][k] for k in ("pol", "asc", "nbits", "S", "nsblk", "C", "zo", "df_milli")}
-        cfg.update({k: e[k] for k in ("a", "start", "n", "op", "gulp") if k in e})
+        cfg.update({k: e[k] for k in ("a", "start", "n", "op", "gulp", "c0", "m") if k in e})
         if e["a"] == "block":
             cfg["aligned"] = not (e["start"] % t["cfg"]["nsblk"] or (e["start"] + e["n"]) % t["cfg"]["nsblk"])
         clause = {"whole": "WholeIsCalibratedModel", "block": "BlockIsSliceOfWhole", "reduce": "ReductionEqualsSigprocPath",
-                  "header": "HeaderPlainNumbersSigprocUnits"}[e["a"]]
+                  "header": "HeaderPlainNumbersSigprocUnits", "subblock": "SubBandBlockIsSliceOfWhole"}[e["a"]]
         if e["outcome"] != "ok":
             clause = "MustNotRaise"
-        site = {"whole": "PFITSReader.read_block(0, N)", "block": "PFITSReader.read_block", "header": "Header.from_pfits",
+        site = {"whole": "PFITSReader.read_block(0, N)", "block": "PFITSReader.read_block", "subblock": "PFITSReader.read_block(fch1, nchans)", "header": "Header.from_pfits",
                 "reduce": "Filterbank." + {"collapse": "collapse", "bandpass": "bandpass", "chan": "read_chan", "stats": "compute_stats_basic"}.get(e.get("op", ""), "")
                 + " over PFITSReader"}[e["a"]]
         v.violation(clause, site, cfg, {k: (e[k][:10] if isinstance(e[k], list) else e[k]) for k in e if k not in ("a",)},
